@@ -1,6 +1,8 @@
 package main
 
 import (
+	"os"
+	"sort"
 	"encoding/binary"
 	"encoding/json"
 	"fmt"
@@ -125,6 +127,45 @@ func runChanges(cfg *Config) *Result {
 		}
 	}
 	notes := 0
+	var treeLines []string
+	var treeGot [][]string
+	var treeCase []string
+	defer func() {
+		// model vs code on the recursive diff: same trees in, same set of changes out
+		if len(treeLines) == 0 || res.SetupError != "" {
+			return
+		}
+		if f := os.Getenv("VERIF_DUMP_TREELINES"); f != "" {
+			os.WriteFile(f, []byte(strings.Join(treeLines, "\n")+"\n"), 0o644)
+		}
+		modelOut, err := runDriver(cfg.Driver, treeLines)
+		if err != nil {
+			res.SetupError = err.Error()
+			return
+		}
+		for i, mo := range modelOut {
+			f := strings.Fields(mo)
+			if len(f) < 2 || f[0] != "ok" {
+				res.problem(Problem{Kind: "correspondence", Stream: "changes", Case: treeCase[i], Model: truncate(mo, 200), Msg: "tree diff model did not answer"})
+				continue
+			}
+			var ms []string
+			for _, t := range f[2:] {
+				ms = append(ms, t[:1]+unhx(t[1:]))
+			}
+			var gs []string
+			for _, t := range treeGot[i] {
+				gs = append(gs, t[:1]+unhx(t[1:]))
+			}
+			sort.Strings(ms)
+			sort.Strings(gs)
+			res.count("treediff:compared")
+			if strings.Join(ms, "\x00") != strings.Join(gs, "\x00") {
+				res.problem(Problem{Kind: "correspondence", Stream: "changes", Case: treeCase[i], Impl: truncate(strings.Join(gs, " "), 400), Model: truncate(strings.Join(ms, " "), 400),
+					Msg: "Changes on the collected trees differs from the model's addChanges on the same trees (as sets)"})
+			}
+		}
+	}()
 	for i, jr := range results {
 		c := jobCase[i]
 		res.Evaluations++
@@ -144,6 +185,11 @@ func runChanges(cfg *Config) *Result {
 			return res
 		}
 		res.Compared++
+		if out.TreeLine != "" {
+			treeLines = append(treeLines, out.TreeLine)
+			treeGot = append(treeGot, out.TreeGot)
+			treeCase = append(treeCase, c)
+		}
 		for k, v := range out.Counts {
 			res.Distribution[k] += v
 		}
